@@ -27,6 +27,11 @@ OpSpace ==
     \cup [op : {"openat"}, dir : {0}, name : {2}, fl : {1, 2}, h : {0}, mode : {1}]
     \cup [op : {"openat"}, dir : {1}, name : {0, 5}, fl : {0, 1}, h : 0..1, mode : {0}]
     \cup [op : {"openat"}, dir : {2}, name : {6, 0}, fl : {0}, h : 0..1, mode : {0}]
+    \* every flag that changes which OTHER argument matters: fl 4 = O_TMPFILE|O_RDWR (mode is consulted; path names the
+    \* directory), 5 = O_DIRECTORY (on a directory / a file), 6 = O_NOFOLLOW (on the symlink / a file)
+    \cup [op : {"openat"}, dir : {0}, name : {3, 0}, fl : {4}, h : 0..1, mode : 0..1]
+    \cup [op : {"openat"}, dir : {0}, name : {3, 0}, fl : {5}, h : {0}, mode : {0}]
+    \cup [op : {"openat"}, dir : {0}, name : {7, 0}, fl : {6}, h : {1}, mode : {0}]
     \cup [op : {"close"}, h : Handles]
     \cup [op : {"readv"}, h : 0..1, len : 0..1]          \* handles 0,1 hold files/directories, handle 2 sockets:
     \cup [op : {"writev"}, h : 0..1, data : 0..1]        \* no transfer that could block forever on a socket
@@ -43,7 +48,7 @@ OpSpace ==
     \cup {[op |-> "renameat", dir |-> p[1], name |-> p[2], dir2 |-> p[3], name2 |-> p[4], rf |-> p[5]] : p \in RenameArgs}
     \cup [op : {"socket"}, kind : 0..1, proto : {0}, h : {2}]
     \cup {[op |-> "socket", kind |-> 1, proto |-> 17, h |-> 2], [op |-> "socket", kind |-> 1, proto |-> 6, h |-> 2]}  \* udp ok, tcp on a datagram socket refused
-    \cup [op : {"timeout"}]
+    \cup [op : {"timeout"}, abs : 0..1]            \* relative 1 ms / absolute, long past
     \cup [op : {"poll"}, h : 0..1, ev : 0..1]            \* always ready (or EBADF): a poll that never fires never completes
     \cup [op : {"poll"}, h : {2}, ev : {1}]
 
